@@ -557,7 +557,10 @@ def b_len(eng, args, kw):
         # adds may contain duplicates: only exact when syntactically distinct & proven distinct
         if len(x.adds) <= 1:
             return len(x.adds)
-        raise EngineError('len of symbolic set')
+        mem = eng.set_members(x)
+        if mem is None:
+            raise EngineError('len of symbolic set')
+        return len(mem)
     if isinstance(x, OptObj):
         x = x.obj
     if isinstance(x, SObj):
@@ -619,6 +622,7 @@ def b_set(eng, args, kw):
     if args:
         for x in eng.iter_concrete(args[0]):
             s.adds.append(eng.key_term(x))
+            s.objs.append(x)
     return s
 
 
@@ -1002,6 +1006,7 @@ def sset_method(eng, s, name):
     if name == 'add':
         def f(e, a, k):
             s.adds.append(e.key_term(a[0]))
+            s.objs.append(a[0])
             e.note_write(('set', s))
         return Builtin('set.add', f)
     if name == 'union':
